@@ -449,6 +449,26 @@ func (c *Ctx) c01MetablockBinding(R string) {
 				}
 			}
 		}
+		// the same selection written as  i := slices.IndexFunc(sigs, func(s) bool { return s.KeyID == keyID }); i >= 0
+		if !okSel {
+			if list, pred, bind, ok := c.indexFuncElem(resolve(r.Results[0], r), r.Block()); ok && org(list) == "p0.Signatures" {
+				sel := len(returnsOf(pred)) > 0
+				for _, pr := range returnsOf(pred) {
+					bo, isBo := pr.Results[0].(*ssa.BinOp)
+					if !isBo || bo.Op != token.EQL {
+						sel = false
+						continue
+					}
+					x, y := bo.X, bo.Y
+					if !((fieldOfParam(x, pred, "KeyID") && outerValueOf(y, pred, bind) == ssa.Value(gk.Params[1])) || (fieldOfParam(y, pred, "KeyID") && outerValueOf(x, pred, bind) == ssa.Value(gk.Params[1]))) {
+						sel = false
+					}
+				}
+				if sel {
+					okSel, o = true, "p0.Signatures[*]"
+				}
+			}
+		}
 		c.check(okSel && o == "p0.Signatures[*]", R, fname(gk), "selected signature", instrPos(r), "returns receiver.Signatures[i] under Signatures[i].KeyID == keyID", "returned signature "+o+" is not selected by key id equality")
 	}
 }
@@ -478,6 +498,28 @@ func (c *Ctx) c01EnvelopeBinding(R string) {
 				k, ok := v.(*ssa.Call)
 				return ok && calleeName(k) == "in_toto.getSignerVerifierFromKey" && resolve(k.Call.Args[0], k) == ssa.Value(vs.Params[1])
 			}, false)
+		}
+		if !ok {
+			// the verifier handed back by an unexported helper that is given the key parameter and builds it that way
+			if hc, idx := producer(cc.Args[0], call); hc != nil && idx == 0 {
+				h := hc.Common().StaticCallee()
+				if c.isStageHelper(h) && len(hc.Common().Args) >= 1 {
+					for j, a := range hc.Common().Args {
+						if resolve(a, hc) != ssa.Value(vs.Params[1]) || j >= len(h.Params) {
+							continue
+						}
+						for _, nv := range callsIn(h, "ssl/dsse.NewEnvelopeVerifier") {
+							built := derives(nv.Common().Args[0], func(v ssa.Value) bool {
+								k, ok := v.(*ssa.Call)
+								return ok && calleeName(k) == "in_toto.getSignerVerifierFromKey" && resolve(k.Call.Args[0], k) == ssa.Value(h.Params[j])
+							}, false)
+							if built && c.helperGuarantees(h, nv) {
+								okV = true
+							}
+						}
+					}
+				}
+			}
 		}
 		c.check(okV, R, fn, "verifier", call.Pos(), "EnvelopeVerifier built from getSignerVerifierFromKey(key)", "envelope verifier is not built from the key parameter")
 		for _, r := range c.nilErrReturns(vs) {
